@@ -596,7 +596,48 @@ def guarded(ctx, what, fn):
                  "traceback": traceback.format_exc()[-1500:]}]
 
 
-def glue_instances():
+def bus_glue_inst(bus_std, bus_dw, m_dw, m_addressing, s_dw, mem_bytes=512):
+    """Monitor-only instance: Wishbone master -> add_adapter -> bus -> add_adapter -> wishbone.SRAM, judged by the
+    reference byte memory at the byte addresses the master means (word address << log2(master bytes), or the byte
+    address itself), initial pattern included."""
+    nbm = m_dw // 8
+    name = "busglue: wishbone %s-addressed %d-bit master / %s %d-bit bus / wishbone.SRAM %d-bit" % (
+        m_addressing, m_dw, bus_std, bus_dw, s_dw)
+    top = L.build_bus_glue(bus_std, bus_dw, m_dw, m_addressing, s_dw, mem_bytes)
+    sh = L.log2i(nbm)
+    ashift = sh if m_addressing == "byte" else 0
+    words = mem_bytes // nbm
+    adrs = [w << ashift for w in range(words)]
+
+    def byte_map(adr, lane):
+        return ((adr >> ashift) << sh) + lane
+    mon = lambda: MasterMemMonitor(nbm, mem_bytes, max_wait=120, byte_map=byte_map, init_fn=L.glue_pattern)
+    return WbInst(name, top, None, master_gen=_RegionMaster(nbm, adrs, False, ashift), monitor=mon)
+
+
+def bus_glue_grid(tier, seed=0):
+    """{bus standard} x {bus width} x {master addressing} x {master width} x {slave width}; the quick tier runs the
+    combinations in which add_adapter composes a width conversion with an addressing / standard conversion on
+    either side plus controls, the thorough tier the whole grid."""
+    full = [(b, bw, mw, ma, sw) for b in ("wishbone", "axi-lite", "axi") for bw in (32, 64)
+            for ma in ("word", "byte") for mw in (32, 64, 128) for sw in (32, 64, 128)
+            if not (ma == "byte" and mw != bw)]      # wishbone.Converter asserts a word-addressed master
+    if tier != "quick":
+        return full
+    key = [("axi-lite", 32, 64, "word", 32), ("axi-lite", 32, 32, "word", 64), ("axi-lite", 64, 32, "word", 128),
+           ("axi-lite", 64, 128, "word", 32), ("axi", 32, 64, "word", 64), ("axi", 64, 32, "word", 32),
+           ("wishbone", 32, 64, "word", 128), ("wishbone", 64, 64, "byte", 32), ("wishbone", 32, 32, "byte", 64),
+           ("axi-lite", 32, 32, "byte", 32)]
+    rest = [c for c in full if c not in key]
+    k = (seed * 5) % len(rest)
+    return key + (rest + rest)[k:k + 4]
+
+
+def glue_instances(tier="quick", seed=0):
+    return _soc_glue_instances() + [lambda c=c: bus_glue_inst(*c) for c in bus_glue_grid(tier, seed)]
+
+
+def _soc_glue_instances():
     return [
         lambda: soc_glue_inst("glue: SoC bus 32, master 32 (add_ram rw+ro)", 32, 32),
         lambda: soc_glue_inst("glue: SoC bus 32, master 64 (add_adapter: DownConverter)", 32, 64),
@@ -610,8 +651,8 @@ def glue_instances():
 
 def _glue_worker(arg):
     import explore, random
-    k, seed, cycles = arg
-    inst = glue_instances()[k]()
+    k, seed, cycles, tier = arg
+    inst = glue_instances(tier, seed)[k]()
     rng = random.Random(seed * 104729 + k)
     mon = inst.monitor()
     trace, distinct, fail = [], 0, None
@@ -635,8 +676,9 @@ def glue_runs(ctx):
     from explore import Disagreement
     out = []
     cycles = 1200 if ctx.tier == "quick" else 20000
-    n = len(glue_instances())
-    args = [(k, ctx.seed, cycles) for k in range(n)]
+    makers = glue_instances(ctx.tier, ctx.seed)
+    n = len(makers)
+    args = [(k, ctx.seed, cycles, ctx.tier) for k in range(n)]
     procs = min(n, int(os.environ.get("VERIF_PROCS", "0")) or (os.cpu_count() or 4))
     if procs <= 1:
         results = [_glue_worker(a) for a in args]
@@ -648,7 +690,7 @@ def glue_runs(ctx):
         ctx.cov.count("glue completed bus cycles", completed)
         if fail:
             t, outs, m = fail
-            out.append(Disagreement(glue_instances()[k](), [tuple(l) for l in trace], t, outs, None, kind="monitor:" + m))
+            out.append(Disagreement(makers[k](), [tuple(l) for l in trace], t, outs, None, kind="monitor:" + m))
     return out
 
 
@@ -767,7 +809,7 @@ def search(ctx, disagreements, proof_info):
         if all_jobs[j].mode == "B":
             cands.append(("jobs", all_jobs[j].make))
     cands += [("search", mk) for mk in search_instances(ctx.tier)]
-    cands += [("glue", mk) for mk in glue_instances()]
+    cands += [("glue", mk) for mk in glue_instances(ctx.tier, ctx.seed)]
     cands += [("jobs", jb.make) for k, jb in enumerate(all_jobs) if jb.mode == "B" and k not in bad]
     for source, mk in cands:
         if time.time() > deadline:
@@ -797,7 +839,7 @@ def replay(ctx, payload):
         return 1
     trace = [tuple(l) for l in fi.get("trace", [])]
     makers = ([jb.make for jb in jobs("thorough")] + [jb.make for jb in jobs("quick")] + search_instances("thorough") +
-              glue_instances() + list(corpus_instances().values()))
+              glue_instances("thorough") + list(corpus_instances().values()))
     for mk in makers:
         inst = mk()
         if inst.name == name:
